@@ -258,12 +258,15 @@ def dominated(repo, key, ws):
         if fi is None:
             return False
         names = {name}
-        for n in ast.walk(fi.node):
-            if isinstance(n, ast.Assign) and len(n.targets) == 1 \
-                    and isinstance(n.targets[0], ast.Name):
-                g = global_root(repo, fi, n.value, {})
-                if g == key:
-                    names.add(n.targets[0].id)
+        alias = {}
+        for _ in range(3):          # aliases of aliases (x = CONTAINER; y = x[k])
+            for n in ast.walk(fi.node):
+                if isinstance(n, ast.Assign) and len(n.targets) == 1 \
+                        and isinstance(n.targets[0], ast.Name):
+                    g = global_root(repo, fi, n.value, alias)
+                    if g == key:
+                        names.add(n.targets[0].id)
+                        alias[n.targets[0].id] = key
         uses = []
         for n in ast.walk(fi.node):
             if isinstance(n, ast.Name) and n.id in names and isinstance(n.ctx, ast.Load):
